@@ -2,11 +2,12 @@
 import itertools
 import os
 import shutil
+import stat
 import tempfile
 
 from hypothesis import strategies as st
 
-from vp.core import Case, Sub, V
+from vp.core import Case, HarnessError, Sub, V
 from vp import matchers as ML
 
 PROPERTY = "C06"
@@ -48,6 +49,25 @@ ASSUMPTIONS = [
     "directory out of order - the grid probes for such a directory and falls back to a fixed one",
     "side-effect:matcher-* reports any change of vars(matcher), including a harmless cache; the message says when "
     "every verdict was still the documented one",
+    "more docstrings with two readings, both verdicts admitted: MatchesException(instance) / raises(instance) - 'the type "
+    "... of the exception' as isinstance of the given exception's class (the code) or as exactly that class; HasPermissions "
+    "on a symbolic link - the mode of the file it points to (the code, os.stat) or of the link itself (os.lstat)",
+    "only SameMembers documents iterators: a TypeError from AllMatch / AnyMatch / MatchesSetwise handed a one-shot iterator "
+    "(an implementation that takes len() first is right on every list, tuple and set) counts as outside the domain; the "
+    "verdict, when there is one, is asserted",
+    "'modifies neither ... nor the matched value' is read deeply for an exc_info tuple: the exception object's "
+    "__traceback__ (identity with the tuple's third item, line numbers and local names along the chain), __cause__, "
+    "__context__, __suppress_context__ and __notes__ are part of the value, so a match() that re-raises the exception to "
+    "test its type is reported as side-effect:matchee-* although its verdicts are right",
+    "the file system is consulted at match() time, not when the matcher is constructed: SamePath's 'the paths do not have "
+    "to exist' is read as 'at match time'; a SamePath that resolves its reference path in __init__ answers differently "
+    "once the files appear or change and is reported (determinism:built-before-the-files-existed-*, "
+    "verdict:stale-after-the-files-changed-*)",
+    "bare Raises() and a non-Exception error (KeyboardInterrupt, SystemExit, a BaseException subclass): the class docstring "
+    "('Exceptions which are not subclasses of Exception propagate ... unless they are explicitly matched') decides, not the __init__ sentence 'the simple fact of "
+    "raising an exception is considered enough to match on'",
+    "a scratch file system on which chmod does not leave the requested mode (sticky bit silently dropped) is a harness "
+    "error (exit 2), not a verdict",
 ]
 
 
@@ -75,6 +95,11 @@ class Env6(ML.Env):
         ML.Env.populate(self)
         if self.fs is not None and self.fs.get("link_dir"):
             os.symlink("dir_a", self.path("link_dir"))
+        if self.fs is not None:
+            # an OS / file system that silently drops mode bits (the sticky bit of a regular file) is a harness problem
+            got = stat.S_IMODE(os.stat(self.path("file_a")).st_mode)
+            if got != int(self.fs["file_a_mode"], 8):
+                raise HarnessError("scratch file system: chmod(file_a, %s) left mode %04o" % (self.fs["file_a_mode"], got))
 
 
 def _rewrite(spec, fn):
@@ -95,14 +120,30 @@ def _deref(name):
     return name.replace("link_dir", "dir_a") if isinstance(name, str) else name
 
 
-def _readings(ms, value, domain):
+def _readings(ms, value, domain, env=None):
     """The (spec, value) pairs under which the documented predicate can defensibly be read; None when the
     readings cannot be told apart by rewriting (verdict not asserted).  The first one is what the code does today.
     - WarningMessage(category): 'a warning type' - identity of the category, or (as the warnings module and
       pytest.warns read it) membership: only Warning itself is a proper superclass in the alphabet.
     - IsDeprecated: 'produces exactly one DeprecationWarning' - exactly one warning which is a DeprecationWarning, or
-      exactly one DeprecationWarning among the warnings."""
+      exactly one DeprecationWarning among the warnings.
+    - MatchesException(instance): 'the type and arguments of the exception are checked' - the exception is an
+      instance of the given one's class (the code), or its type is exactly that class.
+    - HasPermissions on a symbolic link: 'a file has the given permissions' - those of the file the link points
+      to (the code), or those of the link itself."""
     out = [(ms, value)]
+    raised = value if domain == "exc_info" else (value.get("raise") if domain == "callable" and isinstance(value, dict) else None)
+    if isinstance(raised, dict) and "exc" in raised:
+        other_type = lambda n: n["m"] in ("MatchesException", "raises") and n.get("form") == "instance" and n["inst"]["exc"] != raised["exc"]
+        never = lambda n: ML.M("Never", "exc_info") if n["m"] == "MatchesException" else ML.M("Raises", "callable", inner=ML.M("Never", "exc_info"))
+        if ML.has_node(ms, other_type):
+            out.append((_rewrite(ms, lambda n: never(n) if other_type(n) else n), value))
+    if domain == "path" and value == "link_a" and env is not None and env.root and ML.has_node(ms, lambda n: n["m"] == "HasPermissions"):
+        try:
+            own = "%04o" % stat.S_IMODE(os.lstat(env.path(value)).st_mode)
+        except OSError:
+            return None
+        out.append((_rewrite(ms, lambda n: ML.M("Always" if n["perm"] == own else "Never", "path") if n["m"] == "HasPermissions" else n), value))
     if domain == "warning" and ML.has_node(ms, lambda n: n["m"] == "WarningMessage" and n.get("cat") == "Warning"):
         out.append((_rewrite(ms, lambda n: dict(n, cat=value["cat"]) if n["m"] == "WarningMessage" and n.get("cat") == "Warning" else n), value))
     if domain == "callable" and isinstance(value, dict) and ML.has_node(ms, lambda n: n["m"] == "IsDeprecated"):
@@ -120,13 +161,15 @@ def _readings(ms, value, domain):
 def _admitted(ms, value, domain, env):
     """(primary, admitted): the verdict under the first reading (or a Propagates), and the set of verdicts
     the documentation admits (None: not asserted)."""
-    rs = _readings(ms, value, domain)
+    rs = _readings(ms, value, domain, env)
     verdicts = []
     for s, v in (rs if rs is not None else [(ms, value)]):
         try:
             verdicts.append(bool(ML.ref(s, v, env)))
         except ML.Propagates as p:
-            return p, None
+            if not verdicts:
+                return p, None
+            return verdicts[0], None        # a verdict under one reading, an escaping error under another: not asserted
     return verdicts[0], (set(verdicts) if rs is not None else None)
 
 
@@ -202,6 +245,10 @@ def _run_case(spec):
                     top, want.exc_name, kind, res)))
             return Case(vs, ML.depth_of(ms) >= 2, ["propagates"])
         if kind == "raised":
+            if env.list_flavour == "iter" and isinstance(res, TypeError) and not ML.has_node(ms, lambda n: n["m"] == "SameMembers"):
+                # only SameMembers documents iterators; a combinator that wants a sized / re-iterable collection
+                # (len() first) is right on every list, tuple and set
+                return Case([], False, ["undefined-domain"])
             vs.append(V("raises", "%s-%s" % (top, type(res).__name__), "match(%r) raised %r for %r" % (value, res, ms)))
             return Case(vs, ML.depth_of(ms) >= 2, ["raised"])
         got = res is None
@@ -328,7 +375,8 @@ def _enum_dicts():
 
 
 def _enum_one_shot():
-    """The sequence matchers that are documented for iterators / 'values', fed one-shot iterators."""
+    """The sequence matchers that speak of 'values' (only SameMembers names iterators), fed one-shot iterators: a
+    verdict must be the documented one, a TypeError (len() of an iterator) is outside the domain except for SameMembers."""
     M = ML.M
     leaves = [M("Equals", "int", k=1), M("LessThan", "int", k=2), M("Always", "int"), M("Never", "int")]
     values = [list(t) for n in range(0, 4) for t in itertools.product([0, 1, 2], repeat=n)]
@@ -603,7 +651,7 @@ def subchecks(tier):
                  "keys a, b, c with values 0 / 1 (falsy values included), as dict and as defaultdict"),
         Sub("one_shot_iterators", run_case, enum=_enum_one_shot, enum_complete=True,
             note="AllMatch / AnyMatch / Not(AllMatch) / MatchesSetwise (<= 2 leaves) / SameMembers x every list over {0,1,2} of "
-                 "length <= 3, handed over as a one-shot iterator"),
+                 "length <= 3, handed over as a one-shot iterator (a TypeError is admitted except from SameMembers)"),
         Sub("enumerated_list_combinators", run_case, enum=_enum(2 if q else 3), enum_complete=True,
             note="AllMatch/AnyMatch/Not(AnyMatch)/MatchesSetwise/MatchesListwise over every tuple of <= %d leaves from a "
                  "9-leaf int alphabet x every list over {0,1,2} of length <= 3" % (2 if q else 3)),
